@@ -22,12 +22,12 @@ Variables c0 s0 c1 s1 : R.
 Hypothesis C1 : c1 <> 0.
 Hypothesis U0 : s0*s0 + c0*c0 = 1.
 Hypothesis U1 : s1*s1 + c1*c1 = 1.
-Let cq : Vec2 R := (c0, c1). Let sq : Vec2 R := (s0, s1). Let ooc := 1 / c1.
+Local Notation cq := (c0, c1). Local Notation sq := (s0, s1). Local Notation ooc := (1 / c1).
 
 (** N (N^-1 v) = v for the fast products the mobilizers call (from C28: fast products are the matrix products, N NInv = I) *)
 Lemma mulNP_mulNInvP (v:Vec3 R) : mulNP ROps cq sq ooc (mulNInvP ROps cq sq v) = v.
 Proof.
-  destruct v as [[v0 v1] v2]. unfold cq, sq, ooc.
+  destruct v as [[v0 v1] v2].
   rewrite (mulNInvP_is_NInvP c0 s0 c1 s1 0 0 v0 v1 v2).
   destruct (m33_mulv ROps (cNInvP ROps (c0, c1, 0) (s0, s1, 0)) (v0, v1, v2)) as [[w0 w1] w2] eqn:E.
   rewrite (mulNP_is_NP c0 s0 c1 s1 0 0 w0 w1 w2 C1). rewrite <- E, <- m33_mulv_mul.
@@ -43,12 +43,13 @@ Theorem prescribed_qdotdot_exact (qd qdd:Vec3 R) :
   rep_qdotdot3 ROps cq sq ooc (rep_qdot3 ROps cq sq ooc (presc_u3 ROps cq sq qd)) (presc_udot3 ROps true cq sq ooc qd qdd) = qdd.
 Proof.
   rewrite prescribed_qdot_exact. unfold rep_qdotdot3, presc_udot3. rewrite prescribed_qdot_exact. cbv zeta.
-  set (u := presc_u3 ROps cq sq qd). set (corr := ndot_u3 ROps cq sq ooc qd u).
-  destruct qd as [[d0 d1] d2] eqn:Eqd. destruct (mulNInvP ROps cq sq (v3_sub ROps qdd corr)) as [[b0 b1] b2] eqn:Eb.
-  unfold cq, sq, ooc in *. rewrite (angAccP_formula c0 s0 c1 s1 d0 d1 d2 b0 b1 b2 C1 U0 U1).
-  rewrite <- (mulNP_is_NP c0 s0 c1 s1 0 0 b0 b1 b2 C1), <- Eb. fold cq sq ooc. rewrite mulNP_mulNInvP.
-  rewrite <- (mulNInvP_is_NInvP c0 s0 c1 s1 0 0 d0 d1 d2). fold cq sq. rewrite <- Eqd.
-  change (mulNInvP ROps cq sq qd) with u. change (m33_mulv ROps (cNDotP ROps cq sq ooc qd) u) with corr. rewrite Eqd.
+  destruct qd as [[d0 d1] d2].
+  set (u := presc_u3 ROps cq sq (d0,d1,d2)). set (corr := ndot_u3 ROps cq sq ooc (d0,d1,d2) u).
+  destruct (mulNInvP ROps cq sq (v3_sub ROps qdd corr)) as [[b0 b1] b2] eqn:Eb.
+  rewrite (angAccP_formula c0 s0 c1 s1 d0 d1 d2 b0 b1 b2 C1 U0 U1).
+  rewrite <- (mulNP_is_NP c0 s0 c1 s1 0 0 b0 b1 b2 C1), <- Eb. rewrite mulNP_mulNInvP.
+  rewrite <- (mulNInvP_is_NInvP c0 s0 c1 s1 0 0 d0 d1 d2).
+  change (mulNInvP ROps cq sq (d0,d1,d2)) with u. change (m33_mulv ROps (cNDotP ROps cq sq ooc (d0,d1,d2)) u) with corr.
   apply v3_sub_add.
 Qed.
 
@@ -59,12 +60,13 @@ Theorem prescribed_qdotdot_wrong_sign (qd qdd:Vec3 R) :
   = v3_add ROps (v3_add ROps qdd (ndot_u3 ROps cq sq ooc qd (presc_u3 ROps cq sq qd))) (ndot_u3 ROps cq sq ooc qd (presc_u3 ROps cq sq qd)).
 Proof.
   rewrite prescribed_qdot_exact. unfold rep_qdotdot3, presc_udot3. rewrite prescribed_qdot_exact. cbv zeta.
-  set (u := presc_u3 ROps cq sq qd). set (corr := ndot_u3 ROps cq sq ooc qd u).
-  destruct qd as [[d0 d1] d2] eqn:Eqd. destruct (mulNInvP ROps cq sq (v3_add ROps qdd corr)) as [[b0 b1] b2] eqn:Eb.
-  unfold cq, sq, ooc in *. rewrite (angAccP_formula c0 s0 c1 s1 d0 d1 d2 b0 b1 b2 C1 U0 U1).
-  rewrite <- (mulNP_is_NP c0 s0 c1 s1 0 0 b0 b1 b2 C1), <- Eb. fold cq sq ooc. rewrite mulNP_mulNInvP.
-  rewrite <- (mulNInvP_is_NInvP c0 s0 c1 s1 0 0 d0 d1 d2). fold cq sq. rewrite <- Eqd.
-  change (mulNInvP ROps cq sq qd) with u. change (m33_mulv ROps (cNDotP ROps cq sq ooc qd) u) with corr. reflexivity.
+  destruct qd as [[d0 d1] d2].
+  set (u := presc_u3 ROps cq sq (d0,d1,d2)). set (corr := ndot_u3 ROps cq sq ooc (d0,d1,d2) u).
+  destruct (mulNInvP ROps cq sq (v3_add ROps qdd corr)) as [[b0 b1] b2] eqn:Eb.
+  rewrite (angAccP_formula c0 s0 c1 s1 d0 d1 d2 b0 b1 b2 C1 U0 U1).
+  rewrite <- (mulNP_is_NP c0 s0 c1 s1 0 0 b0 b1 b2 C1), <- Eb. rewrite mulNP_mulNInvP.
+  rewrite <- (mulNInvP_is_NInvP c0 s0 c1 s1 0 0 d0 d1 d2).
+  change (mulNInvP ROps cq sq (d0,d1,d2)) with u. change (m33_mulv ROps (cNDotP ROps cq sq ooc (d0,d1,d2)) u) with corr. reflexivity.
 Qed.
 End P.
 
